@@ -14,12 +14,12 @@ import (
 )
 
 type Oblig struct {
-	Rule   string `json:"rule"`   // e.g. "C12.R1"
-	Key    string `json:"key"`    // construct key (rule+construct identity, never a line)
-	Pos    string `json:"pos"`    // file:line for the reader
+	Rule   string `json:"rule"` // e.g. "C12.R1"
+	Key    string `json:"key"`  // construct key (rule+construct identity, never a line)
+	Pos    string `json:"pos"`  // file:line for the reader
 	OK     bool   `json:"ok"`
-	How    string `json:"how"`    // "rule" | "table" | "floor" | "undecided"
-	Detail string `json:"detail"` // why it holds / what fails
+	How    string `json:"how"`                     // "rule" | "table" | "floor" | "undecided"
+	Detail string `json:"detail"`                  // why it holds / what fails
 	Path   bool   `json:"path_argument,omitempty"` // needed a path/provenance argument (non-trivial)
 }
 
